@@ -260,10 +260,14 @@ def binary(bs, acc, a, b, full, lsb0=False):
     if a == b:
         for lcls in CLASSES:
             for op, (sym, _) in OPS.items():
-                s = build(bs, lcls, a)
+                spos = len(a) // 2 + (1 if len(a) > 1 else 0) if lcls in STREAMS else 0      # a stream operand positioned mid-way: the result starts at 0, the operand stays where it is
+                s = build(bs, lcls, a, spos)
                 exp = wrap(lcls, imodel(op, a, a))
                 got = obs(lambda: eval_op(sym, s, s), cb)
                 acc.step(op, 1, nontrivial=1, ok=1)
+                if got[0] == 'ok' and getattr(s, 'pos', 0) != spos:
+                    acc.violation(op, 'frame', dict(lcls=lcls, left=a, self_operand=True, group='self-pos'),
+                                  '\n'.join(["import bitstring", f"s = {mk(lcls, a, spos)}", f"r = s {sym} s", f"assert s.pos == {spos} and r is not s, (s.pos, r is s)"]), spos, getattr(s, 'pos', 0))
                 if not exc_match(exp, got) or s.bin != a:
                     acc.violation(op, 'value' if s.bin == a else 'frame', dict(lcls=lcls, left=a, self_operand=True),
                                   snippet([f"s = {mk(lcls, a)}"], f"s {sym} s", exp, conv=CB_SRC), exp, got)
